@@ -282,6 +282,11 @@ def _drive(c, kind, rng, keys, oldmax, newmax, codes):
         else:
             isolate = rng.random() < 0.5 and kind == 'snapshot_catchup'
             if isolate:
+                # the node that will be cut off calls every method once under the old version (anything a call path may
+                # remember per method - ids, name tables - is then in place before the switch reaches it by snapshot)
+                for o, nm in keys:
+                    c.call(lag, o, nm)
+                c.settle()
                 c.isolate(lag)
             else:
                 c.kill(lag)
@@ -323,6 +328,9 @@ def _drive(c, kind, rng, keys, oldmax, newmax, codes):
                 c.restart(lag, code=1)
                 c.settle()
                 c.table_probe(lag)
+        if kind == 'snapshot_catchup':
+            for o, nm in keys:                   # every method, called on the node that got the switch by snapshot
+                c.call(lag, o, nm)
         _calls(c, rng, [lag], rng.randint(2, 4), keys)
         _calls(c, rng, _live(c), rng.randint(1, 3), keys)
         c.settle()
